@@ -38,6 +38,26 @@ class LtlPastifier(LtlAstVisitor):
         self.subformula_horizons = dict()
         self.ast = None
 
+    def started(self, delay):
+        # -inf during the first `delay` updates (while a delayed operand has not reached
+        # time 0 yet), +inf afterwards
+        node = Constant(float('inf'))
+        for i in range(delay):
+            node = StrongPrevious(node)
+        return node
+
+    def ignore_warmup_low(self, node, delay):
+        # the operand of a past operator counts as -inf before time 0
+        if delay > 0:
+            node = Conjunction(node, self.started(delay))
+        return node
+
+    def ignore_warmup_high(self, node, delay):
+        # the operand of a past operator counts as +inf before time 0
+        if delay > 0:
+            node = Disjunction(node, Neg(self.started(delay)))
+        return node
+
     def pastify(self, ast):
         self.ast = ast
         h = LtlHorizon()
@@ -210,6 +230,7 @@ class LtlPastifier(LtlAstVisitor):
         remaining_horizon = args[0]
         horizon = remaining_horizon - node_horizon
         child_node = self.visit(node.children[0], node_horizon)
+        child_node = self.ignore_warmup_low(child_node, node_horizon)
         node = Rise(child_node)
         for i in range(horizon):
             node = Previous(node)
@@ -220,6 +241,7 @@ class LtlPastifier(LtlAstVisitor):
         remaining_horizon = args[0]
         horizon = remaining_horizon - node_horizon
         child_node = self.visit(node.children[0], node_horizon)
+        child_node = self.ignore_warmup_high(child_node, node_horizon)
         node = Fall(child_node)
         for i in range(horizon):
             node = Previous(node)
@@ -304,6 +326,7 @@ class LtlPastifier(LtlAstVisitor):
         remaining_horizon = args[0]
         horizon = remaining_horizon - node_horizon
         child_node = self.visit(node.children[0], node_horizon)
+        child_node = self.ignore_warmup_low(child_node, node_horizon)
         node = Once(child_node)
         for i in range(horizon):
             node = Previous(node)
@@ -314,6 +337,7 @@ class LtlPastifier(LtlAstVisitor):
         remaining_horizon = args[0]
         horizon = remaining_horizon - node_horizon
         child_node = self.visit(node.children[0], node_horizon)
+        child_node = self.ignore_warmup_high(child_node, node_horizon)
         node = Previous(child_node)
         for i in range(horizon):
             node = Previous(node)
@@ -324,6 +348,7 @@ class LtlPastifier(LtlAstVisitor):
         remaining_horizon = args[0]
         horizon = remaining_horizon - node_horizon
         child_node = self.visit(node.children[0], node_horizon)
+        child_node = self.ignore_warmup_low(child_node, node_horizon)
         node = StrongPrevious(child_node)
         for i in range(horizon):
             node = Previous(node)
@@ -344,6 +369,7 @@ class LtlPastifier(LtlAstVisitor):
         remaining_horizon = args[0]
         horizon = remaining_horizon - node_horizon
         child_node = self.visit(node.children[0], node_horizon)
+        child_node = self.ignore_warmup_high(child_node, node_horizon)
         node = Historically(child_node)
         for i in range(horizon):
             node = Previous(node)
@@ -354,7 +380,9 @@ class LtlPastifier(LtlAstVisitor):
         remaining_horizon = args[0]
         horizon = remaining_horizon - node_horizon
         child_node_1 = self.visit(node.children[0], node_horizon)
+        child_node_1 = self.ignore_warmup_high(child_node_1, node_horizon)
         child_node_2 = self.visit(node.children[1], node_horizon)
+        child_node_2 = self.ignore_warmup_low(child_node_2, node_horizon)
         node = Since(child_node_1, child_node_2)
         for i in range(horizon):
             node = Previous(node)
